@@ -95,6 +95,68 @@ def confirm(src, sid, prop):
         shutil.rmtree(tmp, ignore_errors=True)
 
 
+def confirm_refactor(src, sid):
+    """A behaviour-preserving refactoring: suite green with the patch, demo passes with and without."""
+    dst = os.path.join(ROOT, "refactorings", sid)
+    tmp, root = scratch_repo()
+    try:
+        work = os.path.join(root, "seeded_demo")
+        shutil.copytree(src, work)
+        demo_rel = os.path.join("seeded_demo", "demo.py")
+        rc0, out0 = run_demo(root, demo_rel) if os.path.exists(os.path.join(src, "demo.py")) else (0, "")
+        ok, msg = apply_patch(root, os.path.join(src, "patch.diff"))
+        if not ok:
+            print("patch does not apply:", msg)
+            return 1
+        suite_ok, last = run_suite(root)
+        rc1, out1 = run_demo(root, demo_rel) if os.path.exists(os.path.join(src, "demo.py")) else (0, "")
+        print("demo without patch: rc=%d; suite with patch: %s; demo with patch: rc=%d" % (rc0, last, rc1))
+        if rc0 != 0 or not suite_ok or rc1 != 0:
+            print("NOT CONFIRMED", out0, out1)
+            return 1
+        os.makedirs(dst, exist_ok=True)
+        for f in ("patch.diff", "demo.py", "notes.md"):
+            if os.path.exists(os.path.join(src, f)):
+                shutil.copy(os.path.join(src, f), os.path.join(dst, f))
+        meta = {"id": sid, "kind": "behaviour-preserving refactoring (false-alarm probe)",
+                "origin": "written by an independent sub-agent that saw the ten property texts and a scratch worktree of /repo",
+                "confirmed": {"suite_with_patch": last, "demo_without_patch_rc": rc0, "demo_with_patch_rc": rc1}, "checks_run": {}}
+        with open(os.path.join(dst, "meta.json"), "w") as f:
+            json.dump(meta, f, indent=1)
+        print("confirmed ->", dst)
+        return 0
+    finally:
+        shutil.rmtree(tmp, ignore_errors=True)
+
+
+def run_clean(sid, tier="quick", props=None):
+    """Every check must stay quiet on a refactoring that preserves the properties."""
+    d = os.path.join(ROOT, "refactorings", sid)
+    meta = json.load(open(os.path.join(d, "meta.json")))
+    props = props or ["C01", "C05", "C06", "C07", "C08", "C12", "C14", "C17", "C18", "C19"]
+    tmp, root = scratch_repo()
+    try:
+        ok, msg = apply_patch(root, os.path.join(d, "patch.diff"))
+        if not ok:
+            print("patch does not apply:", msg)
+            return
+        for prop in props:
+            env = dict(os.environ, RV_SRC=os.path.join(root, "src", "python"), RV_FIXTURES=os.path.join(root, "tests", "files"),
+                       VERIF_EVIDENCE_DIR=os.path.join(tmp, "ev"), VERIF_REPLAY_DIR=os.path.join(tmp, "rp"), VERIF_MINIMISE_S="8", VERIF_MINIMISE_TOTAL_S="30", VERIF_NO_FRESH_REPLAY="1")
+            t0 = time.time()
+            p = subprocess.run([os.path.join(ROOT, "check"), prop, tier], env=env, capture_output=True, text=True, timeout=7200)
+            dt = time.time() - t0
+            sigs = [l.strip()[len("signature: "):][:400] for l in p.stdout.splitlines() if l.strip().startswith("signature:")]
+            verdict = "quiet" if p.returncode == 0 else ("ALARM" if p.returncode == 1 else "error rc=%d" % p.returncode)
+            meta.setdefault("checks_run", {})["%s:%s" % (prop, tier)] = {"verdict": verdict, "wall_s": round(dt, 1), "signatures": sigs[:3]}
+            print("%-10s %s %-6s %s (%.0fs) %s" % (sid, prop, tier, verdict, dt, sigs[0][:200] if sigs else (p.stderr[-300:] if p.returncode not in (0, 1) else "")))
+            sys.stdout.flush()
+        with open(os.path.join(d, "meta.json"), "w") as f:
+            json.dump(meta, f, indent=1)
+    finally:
+        shutil.rmtree(tmp, ignore_errors=True)
+
+
 def run(sid, tier="quick", props=None):
     d = os.path.join(SEEDED, sid)
     meta = json.load(open(os.path.join(d, "meta.json")))
@@ -134,6 +196,11 @@ def main(argv):
     if argv[0] == "run":
         tier = argv[2] if len(argv) > 2 else "quick"
         run(argv[1], tier, argv[3:] or None)
+        return 0
+    if argv[0] == "confirm_refactor":
+        return confirm_refactor(argv[1], argv[2])
+    if argv[0] == "run_clean":
+        run_clean(argv[1], argv[2] if len(argv) > 2 else "quick", argv[3:] or None)
         return 0
     if argv[0] == "runall":
         tier = argv[1] if len(argv) > 1 else "quick"
